@@ -12,6 +12,7 @@ import (
 	"encoding/json"
 	"fmt"
 	"os"
+	"regexp"
 	"strings"
 	"sync"
 	"testing"
@@ -158,6 +159,19 @@ func genCase(t *rapid.T, opt *wgen.Options, nhist int) (c Case, p *winterp.Progr
 		}
 		if c.Mutation != "" {
 			cls += "-mutant"
+		} else {
+			// an unmutated draw that the tree rejects is the generator's inaccuracy: keep the reasons visible
+			msg := err.Error()
+			if i := strings.Index(msg, " at "); i > 0 {
+				msg = msg[:i]
+			}
+			if len(msg) > 160 {
+				msg = msg[:160]
+			}
+			ev.Note("unmutated draw rejected: " + rejectShape(msg))
+			if os.Getenv("VERIF_E2_DEBUG") != "" {
+				fmt.Fprintf(os.Stderr, "REJECT %v\n", err)
+			}
 		}
 		ev.Class(cls)
 		return c, nil, false
@@ -167,9 +181,20 @@ func genCase(t *rapid.T, opt *wgen.Options, nhist int) (c Case, p *winterp.Progr
 	} else {
 		ev.Class("accepted-program")
 	}
+	for _, sh := range [][2]string{{"iterate (", "iterate"}, {"} else (length:", "iterate-else"}, {"io_bind (", "io_bind"}, {"foo.drain?", "two-public-coroutines"},
+		{"inv ", "loop-invariant"}, {"_fast!(", "fast-io"}, {"w: base.u32", "coroutine-with-argument"}, {"pub func foo.set_f", "refined-setter"}} {
+		if strings.Contains(c.Src, sh[0]) {
+			ev.Class("shape:" + sh[1])
+		}
+	}
 	c.Histories = genHistories(t, p, nhist)
 	return c, p, true
 }
+
+var rejectDigits = regexp.MustCompile(`[0-9]+`)
+
+// rejectShape abstracts numbers so that the same kind of rejection is noted once.
+func rejectShape(msg string) string { return rejectDigits.ReplaceAllString(msg, "N") }
 
 func srcHash(c Case) uint64 { return ev.Hash(c.Src) }
 
@@ -323,6 +348,8 @@ func TestReplay(t *testing.T) {
 		checkMonitorCase(t, r.Property, r.Kind, c, p)
 	case "C04":
 		checkC04Units(t, []Case{c}, []*winterp.Program{p})
+	case "C08":
+		checkUnits(t, "C08", []Case{c}, []*winterp.Program{p})
 	case "C05":
 		tl, err := getTool()
 		if err != nil {
